@@ -12,12 +12,42 @@ S(x) == ToString(x)
 Wrong(e) == {k \in 1..Len(e.answers) : e.answers[k][1] \notin HashJets /\ S(e.answers[k][3]) # S(J(e.answers[k][1], e.desc, e.answers[k][2]))}
 HashIdx(e) == SelectSeq([k \in 1..Len(e.answers) |-> k], LAMBDA k : e.answers[k][1] \in HashJets)
 Terms(e) == [j \in 1..Len(HashIdx(e)) |-> LET a == e.answers[HashIdx(e)[j]] IN <<a[1], a[2], JH(a[1], e.desc, a[2]), a[3]>>]
+(* The digests themselves, recomputed here with Sha256.tla for every m-th event (IOEnv.CONCRETE = m; 0 / absent = none):
+   a digest term <<"sha", parts>> denotes the SHA-256 of the concatenation of its parts -- hex strings, bytes, 32- and
+   64-bit numbers given as 16-bit limbs, ASCII strings, nested terms, and references to the digest of a global hash jet,
+   which is recomputed from that jet's own term.  Checked for the global hash jets (the answer is the digest itself). *)
+HX == INSTANCE Sha256
+Sample == IF "CONCRETE" \in DOMAIN IOEnv THEN atoi(IOEnv.CONCRETE) ELSE 0
+B16v(k) == [i \in 1..16 |-> (k \div (2 ^ (16 - i))) % 2]
+B8v(k) == [i \in 1..8 |-> (k \div (2 ^ (8 - i))) % 2]
+AsciiChars == "abcdefghijklmnopqrstuvwxyzABCDEFGHIJKLMNOPQRSTUVWXYZ"
+CharCode(c) == IF c = "/" THEN 47 ELSE LET k == CHOOSE k \in 1..52 : SubSeq(AsciiChars, k, k) = c IN IF k <= 26 THEN 96 + k ELSE 64 + (k - 26)
+RECURSIVE StrBits(_)
+StrBits(str) == IF str = "" THEN <<>> ELSE B8v(CharCode(SubSeq(str, 1, 1))) \o StrBits(SubSeq(str, 2, Len(str)))
+RECURSIVE DigestBits(_, _), PartsBits(_, _, _)
+PartsBits(parts, env, k) ==
+  IF k > Len(parts) THEN <<>>
+  ELSE LET p == parts[k]
+           here == CASE p[1] = "h" -> HX!HexBits(p[2])
+                     [] p[1] = "u8" -> B8v(p[2])
+                     [] p[1] = "u32" -> B16v(p[2][1]) \o B16v(p[2][2])
+                     [] p[1] = "u64" -> B16v(p[2][1]) \o B16v(p[2][2]) \o B16v(p[2][3]) \o B16v(p[2][4])
+                     [] p[1] = "str" -> StrBits(p[2])
+                     [] p[1] = "t" -> DigestBits(p[2], env)
+                     [] p[1] = "ref" -> DigestBits(JH(p[2], env, U), env)
+       IN here \o PartsBits(parts, env, k + 1)
+DigestBits(t, env) == HX!Sha256(PartsBits(t[2], env, 1))
+DigestsOk(e) ==
+  (Sample > 0 /\ l % Sample = 0 /\ e.build = "ok") =>
+    \A k \in 1..Len(e.answers) : e.answers[k][1] \in GlobalHashJets =>
+       HX!HexBits(e.answers[k][3]) = DigestBits(JH(e.answers[k][1], e.desc, e.answers[k][2]), e.desc)
 Clauses(e) ==
   <<
    e.build = "ok",
    \A k \in 1..Len(e.answers) : e.answers[k][1] \in AllJets \cup HashJets,
    Wrong(e) = {},
-   S(e.sighash_jet) = S(e.sighash_env)
+   S(e.sighash_jet) = S(e.sighash_env),
+   DigestsOk(e)
   >>
 AllTrue(cl) == \A k \in 1..Len(cl) : cl[k]
 Init == l = 1
